@@ -1,6 +1,7 @@
 package main
 
 import (
+	"go/token"
 	"fmt"
 	"go/types"
 	"sort"
@@ -52,6 +53,7 @@ func (eng *Engine) VerifyFunction(fn *ssa.Function, con *Contract) (u *Unit) {
 	}
 	st := newState()
 	u.ensureAllocComp()
+	u.replayFn, u.replayCon = fn, con
 	vars := map[string]Val{}
 	for i, p := range fn.Params {
 		n := u.freshConst("p$"+con.Params[i], u.sortOf(p.Type()))
@@ -59,6 +61,7 @@ func (eng *Engine) VerifyFunction(fn *ssa.Function, con *Contract) (u *Unit) {
 			u.assume(wf)
 		}
 		v := Val{T: n, Ty: p.Type()}
+		u.replayParams = append(u.replayParams, n)
 		x.assumeAllocated(st, v)
 		fr.params = append(fr.params, v)
 		vars[con.Params[i]] = v
@@ -394,7 +397,7 @@ func (x *Executor) loopEnv(fr *Frame, li *loopInfo, st *State) *Env {
 			vars["iter"] = Val{T: fmt.Sprintf("(+ %s 1)", v.T), Ty: mathInt}
 		}
 	}
-	locals := x.localsLookup(fr, st)
+	locals := x.localsLookupAt(fr, st, loopPos(li.header))
 	env := &Env{x: x, u: u, vars: vars, bound: map[string]Val{}, st: st, old: fr.entrySt, pkg: fr.fn.Pkg.Pkg, locals: locals}
 	if env.old == nil {
 		env.old = x.entry
@@ -404,6 +407,12 @@ func (x *Executor) loopEnv(fr *Frame, li *loopInfo, st *State) *Env {
 
 // localsLookup: resolve a source-level local variable name of frame fr in state st.
 func (x *Executor) localsLookup(fr *Frame, st *State) func(name string) (Val, bool) {
+	return x.localsLookupAt(fr, st, token.NoPos)
+}
+
+// localsLookupAt resolves a name lexically: of several locals with that name the one declared
+// last before pos is meant (the innermost / most recent declaration in scope).
+func (x *Executor) localsLookupAt(fr *Frame, st *State, pos token.Pos) func(name string) (Val, bool) {
 	u := x.u
 	return func(name string) (Val, bool) {
 		var found *Val
@@ -417,7 +426,7 @@ func (x *Executor) localsLookup(fr *Frame, st *State) func(name string) (Val, bo
 		sort.Slice(keys, func(i, j int) bool { return keys[i].alloc.Pos() < keys[j].alloc.Pos() })
 		for _, k := range keys {
 			v := st.locals[k]
-			if found == nil {
+			if found == nil || (pos != token.NoPos && k.alloc.Pos() < pos) {
 				vv := v
 				found = &vv
 			}
